@@ -1,5 +1,6 @@
 import Grexv.Lemmas.RepInv
 import Grexv.Lemmas.ExactR
+import Grexv.Lemmas.SafeR
 import Grexv.Lemmas.EndToEnd
 
 /-
@@ -125,7 +126,7 @@ theorem min_struct_lit (cfg : Config) (cls : List Cluster) (hcounts : ∀ cl ∈
   rwa [ofDfa_congr (c1 := cfg) (c2 := cfgPlain cfg.cap cfg.esc) rfl m]
 
 /-- the settings of the end-to-end theorem with repetition conversion: `-r` with positive thresholds, no class option, case-sensitive,
-plain printing (no surrogate pairs, not verbose, no colours), both anchors; capturing groups and `-e` are free -/
+plain printing (no surrogate pairs, not verbose, no colours), at least one anchor in place; capturing groups and `-e` are free -/
 structure RepPrint (cfg : Config) : Prop where
   rep : cfg.rep = true
   minRep : 1 ≤ cfg.minRep
@@ -134,8 +135,7 @@ structure RepPrint (cfg : Config) : Prop where
   sur : cfg.sur = false
   verb : cfg.verb = false
   color : cfg.color = false
-  noStart : cfg.noStart = false
-  noEnd : cfg.noEnd = false
+  anch : (cfg.noStart && cfg.noEnd) = false
 
 /-- without class options the class-conversion step (which also runs for capturing groups) leaves the clusters as they are -/
 theorem preClusters_noflags (cfg : Config) (h : RepPrint cfg) (env : Env) (ws : List Str) :
@@ -152,17 +152,18 @@ theorem preClusters_noflags (cfg : Config) (h : RepPrint cfg) (env : Env) (ws : 
   · rfl
 
 theorem fmtRegExp_repPrint (cfg : Config) (h : RepPrint cfg) (e : Expr) :
-    fmtRegExp cfg e = fmtRegExp (cfgPlain cfg.cap cfg.esc) e := by
-  have hb : bodyText cfg e = bodyText (cfgPlain cfg.cap cfg.esc) e :=
-    bodyText_congr (c1 := cfg) (c2 := cfgPlain cfg.cap cfg.esc) ⟨rfl, rfl, h.sur, h.verb, h.color⟩ e
-  simp only [fmtRegExp, h.ci, h.verb, h.color, h.noStart, h.noEnd, hb, cfgPlain, Bool.false_and, Bool.false_eq_true, ite_false]
+    fmtRegExp cfg e = fmtRegExp (cfgAnch cfg.cap cfg.esc cfg.noStart cfg.noEnd) e := by
+  have hb : bodyText cfg e = bodyText (cfgAnch cfg.cap cfg.esc cfg.noStart cfg.noEnd) e :=
+    bodyText_congr (c1 := cfg) (c2 := cfgAnch cfg.cap cfg.esc cfg.noStart cfg.noEnd) ⟨rfl, rfl, h.sur, h.verb, h.color⟩ e
+  simp only [fmtRegExp, h.ci, h.verb, h.color, hb, cfgAnch, Bool.false_and, Bool.false_eq_true, ite_false]
+  cases cfg.noStart <;> cases cfg.noEnd <;> rfl
 
 /-- **the expression `RegExp::from` keeps under `-r` is well-formed for printing** (both anchors in place) -/
 theorem rep_final_wfs (cfg : Config) (hp : RepPrint cfg) (env : Env) (ws : List Str) (st : Stages)
     (h : regExpFrom cfg env ws = .ok st) (hseg : ∀ w ∈ ws, SegOK env w)
     (hlen : ∀ w ∈ ws, (clusterOfPieces (env.segOf w)).length ≤ 1000) : st.finalAst.WFS := by
   obtain ⟨hsorted, hcl, htrie, hmin, hfirst⟩ := from_stages_shape cfg env ws st h
-  have hfinal := from_final_anchored cfg env ws st h (by simp [hp.noStart])
+  have hfinal := from_final_anchored cfg env ws st h hp.anch
   simp only [hp.ci, Bool.false_eq_true, ite_false] at hsorted
   rw [graphemeClusters_rep cfg env _ hp.rep] at hcl
   rw [preClusters_noflags cfg hp] at hcl
@@ -206,7 +207,7 @@ theorem rep_end_to_end (cfg : Config) (hp : RepPrint cfg) (env : Env) (ws : List
     ∃ P, Spec.parse (fmtRegExp cfg st.finalAst) = some (⟨false, false⟩, P) ∧ Spec.fullMatch false P t = true := by
   have hwfs := rep_final_wfs cfg hp env ws st h hseg hlen
   obtain ⟨hsorted, _, _, _, hfirst⟩ := from_stages_shape cfg env ws st h
-  have hfinal := from_final_anchored cfg env ws st h (by simp [hp.noStart])
+  have hfinal := from_final_anchored cfg env ws st h hp.anch
   simp only [hp.ci, Bool.false_eq_true, ite_false] at hsorted
   have hts : t ∈ st.sorted := by rw [hsorted]; exact (sortCases_mem' ws t).mpr ht
   have hmem : ∀ w ∈ st.sorted, w ∈ ws := fun w hw => by rw [hsorted] at hw; exact (sortCases_mem' ws w).mp hw
@@ -232,8 +233,14 @@ theorem rep_end_to_end (cfg : Config) (hp : RepPrint cfg) (env : Env) (ws : List
     rfl
   have hsp := carriesL_spells hcar hcounts
   rw [hflat] at hsp
+  have hsc : ∀ c ∈ t, Scalar c := by
+    intro c hc
+    rw [← (hseg t ht).2] at hc
+    obtain ⟨p, hpp, hcp⟩ := List.mem_flatten.mp hc
+    exact ((hseg t ht).1 p hpp).2 c hcp
   rw [fmtRegExp_repPrint cfg hp]
-  exact printed_soundR cfg.cap cfg.esc st.finalAst hwfs ls t hls hsp
+  obtain ⟨P, hP, hm⟩ := printed_exactAR cfg.cap cfg.esc cfg.noStart cfg.noEnd st.finalAst hwfs t hsc
+  exact ⟨P, hP, hm.mpr ⟨ls, hls, hsp⟩⟩
 
 /-- **the language of the `-r` pattern, exactly** (settings of `RepPrint`; at least one non-empty test case): the compiled pattern matches
 a string of scalar values in full iff the minimised automaton has an accepting path whose labels spell it — every label `{m,n}` contributing
@@ -246,7 +253,7 @@ theorem rep_exact (cfg : Config) (hp : RepPrint cfg) (env : Env) (ws : List Str)
       (Spec.fullMatch false P s = true ↔ ∃ ls, st.minimized.LangFrom st.minimized.init ls ∧ Dfa.Spells ls s) := by
   have hwfs := rep_final_wfs cfg hp env ws st h hseg hlen
   obtain ⟨hsorted, _, _, _, hfirst⟩ := from_stages_shape cfg env ws st h
-  have hfinal := from_final_anchored cfg env ws st h (by simp [hp.noStart])
+  have hfinal := from_final_anchored cfg env ws st h hp.anch
   simp only [hp.ci, Bool.false_eq_true, ite_false] at hsorted
   have hmem : ∀ w ∈ st.sorted, w ∈ ws := fun w hw => by rw [hsorted] at hw; exact (sortCases_mem' ws w).mp hw
   have hsegp : ∀ w ∈ st.sorted, ∀ p ∈ env.segOf w, p ≠ [] := fun w hw p hpp => ((hseg w (hmem w hw)).1 p hpp).1
@@ -273,12 +280,63 @@ theorem rep_exact (cfg : Config) (hp : RepPrint cfg) (env : Env) (ws : List Str)
     | none => rw [hb] at hw0; exact absurd hw0 (by simp [olang])
     | some e => simp [olang]
   rw [fmtRegExp_repPrint cfg hp]
-  obtain ⟨P, hP, hm⟩ := printed_exactR cfg.cap cfg.esc st.finalAst hwfs s hs
+  obtain ⟨P, hP, hm⟩ := printed_exactAR cfg.cap cfg.esc cfg.noStart cfg.noEnd st.finalAst hwfs s hs
   refine ⟨P, hP, ?_⟩
   rw [hm]
   simp only [Expr.strLangR]
   constructor
   · rintro ⟨ls, h1, h2⟩; exact ⟨ls, (hlangE ls).mp h1, h2⟩
   · rintro ⟨ls, h1, h2⟩; exact ⟨ls, (hlangE ls).mpr h1, h2⟩
+
+/-- `items $` on the fragment with counted repetition: the search from offset 0 succeeds at once and spans the whole subject -/
+theorem find_items_eolC (i : Bool) (its : List Pat) (hf : ∀ p ∈ its, p.FragC) (s : Str) (h : denLC i its s) :
+    Spec.find i (catList (its ++ [Pat.eol])) s = some (0, s.length) := by
+  have hall : ∀ st ∈ matchP i (catList (its ++ [Pat.eol])) (0, s), st.1 = s.length := by
+    intro st hst
+    obtain ⟨h1, h2⟩ := (matchP_catList_eol i its 0 s st).mp hst
+    obtain ⟨u, _, hs, hn⟩ := (matchP_exactC i _ (fragC_catList its hf) 0 s st).mp h1
+    rw [h2] at hs
+    simp only [List.append_nil] at hs
+    rw [hn, hs]; simp
+  have hmem : ((s.length, []) : Pos) ∈ matchP i (catList (its ++ [Pat.eol])) (0, s) := by
+    apply (matchP_catList_eol i its 0 s _).mpr
+    exact ⟨(matchP_exactC i _ (fragC_catList its hf) 0 s _).mpr ⟨s, (denC_catList i its s).mpr h, by simp, by simp⟩, rfl⟩
+  cases hm : matchP i (catList (its ++ [Pat.eol])) (0, s) with
+  | nil => rw [hm] at hmem; simp at hmem
+  | cons st rest =>
+    have hst := hall st (by rw [hm]; exact List.mem_cons_self)
+    unfold Spec.find
+    cases hl : s.length with
+    | zero => simp only [findFrom, hm]; rw [hst, hl]
+    | succ n => simp only [findFrom, hm]; rw [hst, hl]
+
+/-- **C08, the search half, with `-r`** (start anchor disabled, end anchor in place): `Regex::find` on every non-empty test case returns the
+whole test case -/
+theorem rep_find_eol (cfg : Config) (hp : RepPrint cfg) (hns : cfg.noStart = true) (hne' : cfg.noEnd = false)
+    (env : Env) (ws : List Str) (st : Stages)
+    (h : regExpFrom cfg env ws = .ok st) (hseg : ∀ w ∈ ws, SegOK env w)
+    (hlen : ∀ w ∈ ws, (clusterOfPieces (env.segOf w)).length ≤ 1000)
+    (t : Str) (ht : t ∈ ws) (hne : t ≠ []) :
+    ∃ P, Spec.parse (fmtRegExp cfg st.finalAst) = some (⟨false, false⟩, P) ∧ Spec.find false P t = some (0, t.length) := by
+  have hwfs := rep_final_wfs cfg hp env ws st h hseg hlen
+  have hwr := Expr.WFS.toWFR _ hwfs
+  obtain ⟨P, hP, hm⟩ := rep_end_to_end cfg hp env ws st h hseg hlen t ht hne
+  have hP2 := parse_printedAR cfg.cap cfg.esc true false st.finalAst hwr
+  rw [fmtRegExp_repPrint cfg hp, hns, hne'] at hP
+  rw [hP2] at hP
+  simp only [Option.some.injEq, Prod.mk.injEq, true_and] at hP
+  subst hP
+  rw [fmtRegExp_repPrint cfg hp, hns, hne']
+  refine ⟨_, hP2, ?_⟩
+  have hfr := Expr.bothR_fragC cfg.cap cfg.esc st.finalAst hwr
+  have hitems : ∀ p ∈ topItemsR cfg.cap cfg.esc st.finalAst, p.FragC := by
+    unfold topItemsR
+    split
+    · intro p hp; simp only [List.mem_singleton] at hp; subst hp; exact hfr.2
+    · exact hfr.1
+  have hden : denLC false (topItemsR cfg.cap cfg.esc st.finalAst) t :=
+    (fullMatch_items_anchC false true false _ hitems t).mp hm
+  have := find_items_eolC false _ hitems t hden
+  simpa [preA, postA] using this
 
 end Grexv
